@@ -530,6 +530,7 @@ type c34World struct {
 	nSecrets int
 	nPairs   int // populate(): clients 0..2*nPairs-1 come in pairs (many-phantom, alone)
 	dead     string // set when a handler of this world hung (its connection manager's state is then unusable)
+	tcpLn    net.Listener // loopback listener for the raw-TCP carrier (created on first use)
 	r        *vlib.Rand
 }
 
@@ -881,6 +882,12 @@ type c34Run struct {
 
 // start runs the real handleNewTCPConn on the recording connection in a goroutine.
 func (w *c34World) start(conn *c34Conn, phantom, geoMode string) (*c34Run, chan struct{}) {
+	return w.startOn(conn, conn, phantom, geoMode)
+}
+
+// startOn hands `hc` to the handler — the recording connection itself, or the raw connection it wraps
+// (a *net.TCPConn, the type the station's accept loop passes; then only MarkActive is recorded).
+func (w *c34World) startOn(hc net.Conn, conn *c34Conn, phantom, geoMode string) (*c34Run, chan struct{}) {
 	w.geo.mode = geoMode
 	w.cur = conn.log
 	ip := net.ParseIP(phantom)
@@ -896,9 +903,30 @@ func (w *c34World) start(conn *c34Conn, phantom, geoMode string) (*c34Run, chan 
 			run.tRet = time.Now()
 			run.returned = true
 		}()
-		w.cm.handleNewTCPConn(w.rm, conn, ip)
+		w.cm.handleNewTCPConn(w.rm, hc, ip)
 	}()
 	return run, done
+}
+
+// tcpPair returns the two ends of a fresh loopback TCP connection (client side, station side).
+func (w *c34World) tcpPair() (net.Conn, net.Conn, error) {
+	if w.tcpLn == nil {
+		ln, err := net.Listen("tcp", "127.0.0.1:0")
+		if err != nil {
+			return nil, nil, err
+		}
+		w.tcpLn = ln
+	}
+	a, err := net.Dial("tcp", w.tcpLn.Addr().String())
+	if err != nil {
+		return nil, nil, err
+	}
+	b, err := w.tcpLn.Accept()
+	if err != nil {
+		a.Close()
+		return nil, nil, err
+	}
+	return a, b, nil
 }
 
 // c34Peer cycles the peer (client) address through the forms a TCP peer address takes: a 4-byte
@@ -931,6 +959,7 @@ type c34Canon struct {
 	modelLine string
 	implOut   string
 	found     int    // registration index found, -1 if none
+	marked    int    // registration index marked active (MarkActive), -1 if none
 	foundTid  int    // transport that found it
 	consumed  int    // bytes the transport consumed
 	rawStream []byte // leftover ++ raw reads after the match
@@ -942,7 +971,7 @@ type c34Canon struct {
 // canon turns the call log of a finished run into the model line and the implementation's answer.
 func (w *c34World) canon(run *c34Run) c34Canon {
 	ents := run.conn.log.snapshot()
-	out := c34Canon{found: -1}
+	out := c34Canon{found: -1, marked: -1}
 	var toks []string
 	var evs []string
 	var passes [][]string
@@ -1016,6 +1045,7 @@ func (w *c34World) canon(run *c34Run) c34Canon {
 		case 'M':
 			toks = append(toks, fmt.Sprintf("M%d", e.reg))
 			matched = true
+			out.marked = e.reg
 		case 'W':
 			if e.inWrap {
 				out.inWrapIO = true
